@@ -619,7 +619,7 @@ func Run(in, out string, seed int64, skip int) (int, error) {
 }
 
 // Generate writes random scenarios.
-func Generate(out string, n int, seed int64, big bool) error {
+func Generate(out string, n int, seed int64, big bool, sweep int) error {
 	f, err := os.Create(out)
 	if err != nil {
 		return err
@@ -629,6 +629,32 @@ func Generate(out string, n int, seed int64, big bool) error {
 	defer w.Flush()
 	rng := rand.New(rand.NewSource(seed))
 	boundary := []int{0, 1, 11, 12, 13, MaxPayload - 1, MaxPayload, MaxPayload + 1, 2 * MaxPayload, 2*MaxPayload + 1, 3*MaxPayload + 5}
+	// size sweeps: one writer, one message per size; every size near a power of two (buffer-size boundaries of
+	// any implementation), every size up to `sweep`, and random ones - "every payload size"
+	sizes := []int{}
+	for k := 6; k <= 17; k++ {
+		for d := -9; d <= 9; d++ {
+			sizes = append(sizes, (1<<uint(k))+d)
+		}
+	}
+	for v := 0; v <= sweep; v++ {
+		sizes = append(sizes, v)
+	}
+	for k := 0; k < 120; k++ {
+		sizes = append(sizes, rng.Intn(70000))
+	}
+	rng.Shuffle(len(sizes), func(a, b int) { sizes[a], sizes[b] = sizes[b], sizes[a] })
+	for a := 0; a < len(sizes); a += 40 {
+		b := a + 40
+		if b > len(sizes) {
+			b = len(sizes)
+		}
+		s := Scenario{QLen: 256, Fault: "none", Conns: []int{1, 2}}
+		s.Writers = []Writer{{End: []string{"A", "B"}[rng.Intn(2)], Conn: 1, Msgs: sizes[a:b]}, {End: "A", Conn: 2, Msgs: []int{7, 4090, 33}}}
+		js, _ := json.Marshal(s)
+		w.Write(js)
+		w.WriteByte('\n')
+	}
 	for i := 0; i < n; i++ {
 		if big && i%20 == 7 {
 			// several writers on the same end and connection, multi-frame messages among them
